@@ -527,7 +527,14 @@ static std::string check_saved_file(const std::string& path, const PState& st, b
       else if(p.kind == KS) ok = v.u == m.u;
       else
       {
-         if(nine_digit(m.r)) { ok = (v.r == m.r); c.count("save.real_value_with_at_most_9_digits_checked_exact"); }
+         if(nine_digit(m.r))
+         {
+            ok = (v.r == m.r);
+            c.count("save.real_value_with_at_most_9_digits_checked_exact");
+            char b6[48];
+            snprintf(b6, sizeof b6, "%.5e", m.r);
+            if(strtod(b6, 0) != m.r) c.count("save.real_value_needing_7_to_9_digits_checked_exact");
+         }
          else { ok = std::fabs(v.r - m.r) <= 5e-9 * std::fabs(m.r); c.count("save.real_value_with_more_digits_checked_5e-9"); }
       }
       if(!ok) { what = "wrong-value/" + std::string(KNAME[p.kind]); return "saved file says " + f.type + ":" + f.name + " = " + f.value + " but the value set is " + vtext(m); }
@@ -574,7 +581,7 @@ struct Judge
 // getters + wiring + LP against the model; `op` is the short operation name used in wiring signatures, `opdesc` the full one,
 // `who` a suffix ("@copy" when the object judged was produced by the copy constructor)
 static void check_state(SoPlex& s, const PState& st, Model& mo, Judge& j, const std::string& op, const std::string& opdesc, bool solved,
-                        const std::string& who = "")
+                        const std::string& who = "", bool wiring = true)
 {
    std::string detail;
    PState g = getters(s);
@@ -583,7 +590,7 @@ static void check_state(SoPlex& s, const PState& st, Model& mo, Judge& j, const 
    std::vector<std::string> wa, we;
    wiring_actual(s, wa);
    wiring_expected(st, we, solved);
-   for(int k = 0; k < NW; ++k)
+   for(int k = 0; wiring && k < NW; ++k)
       if(we[k] != "?" && wa[k] != we[k])
          j.viol(std::string("used-differs-from-set:") + WNAME[k] + ":" + op + who, std::string(WNAME[k]) + " in use is " + wa[k] + " but the parameters say " + we[k]);
    mo.maximize = st.i[SoPlex::OBJSENSE] == SoPlex::OBJSENSE_MAXIMIZE;
@@ -700,6 +707,10 @@ static std::vector<MVal> focus_values(PId p, bool thorough)
       if(valid(e) && !isdef(e) && e.cls != "just-above-lower" && e.cls != "just-below-upper" && e.cls != "minus-zero" && e.cls != "interior-17-digits") good.push_back(e);
    // prefer the 9-digit interior value first for reals (exact round trip demanded)
    std::stable_sort(good.begin(), good.end(), [](const MVal & a, const MVal & b) { return (a.cls == "interior-9-digits") > (b.cls == "interior-9-digits"); });
+   // scaler=off on a solved, persistently scaled LP makes the LP unreadable (known finding, reached by the single operations and the
+   // round trips); inside the history product the scaler focus values are two real scalers so that the LP stays comparable
+   if(p.kind == KI && p.idx == SoPlex::SCALER)
+      std::stable_sort(good.begin(), good.end(), [](const MVal & a, const MVal & b) { return (a.v.i != 0) > (b.v.i != 0); });
    for(size_t k = 0; k < good.size() && out.size() < 2; ++k) out.push_back(good[k]);
    if(thorough || out.size() < 2)
       for(auto& e : all) if(isdef(e)) { out.push_back(e); break; }
@@ -971,7 +982,9 @@ static uint64_t run_single(const SCase& sc, Ctx& c)
       for(size_t k = 0; k < after.size(); ++k)
          if(after[k] != before[k]) { j.viol("rejected-but-changed:" + opdesc + "/" + raw_name((int)k), raw_name((int)k) + " was " + before[k] + ", now " + after[k] + " after a rejected operation"); break; }
    }
-   check_state(s, st, mo, j, op, opdesc, sc.init == INIT_SOLVED);
+   // after a rejected operation the wiring was just compared with its state before the call; against the model it is compared
+   // in the cases where the operations that built that state are themselves the operation judged
+   check_state(s, st, mo, j, op, opdesc, sc.init == INIT_SOLVED, "", accepted);
    if(!path.empty()) unlink(path.c_str());
    if(accepted && !(st == stBefore)) c.count("single.state_changing");
    c.state(std::to_string(sc.init) + ":" + st.digest());
@@ -1067,7 +1080,7 @@ static uint64_t run_hist(const Hist& h, Ctx& c)
    bool haveFile = false;
    uint64_t dig = 17;
    bool observesEarlier = false;
-   bool isCopy = false;
+   bool isCopy = false, lastRejected = false;
    // sources of copies stay alive until the history ends: whether a copy survives the death of its source is C17's question
    std::vector<std::unique_ptr<SoPlex>> sources;
    for(size_t k = 0; k < h.ops.size(); ++k)
@@ -1092,6 +1105,7 @@ static uint64_t run_hist(const Hist& h, Ctx& c)
             if(want && !r.ret) j.viol("valid-rejected:" + opdesc, "returned false for a value inside the documented range");
             if(!want)
             {
+               lastRejected = true;
                c.count("hist.rejected_sets");
                if(!(stBefore == defaults())) c.count("atomicity.rejected_from_non_default_state");
                std::vector<std::string> after = raw_obs(s);
@@ -1205,7 +1219,7 @@ static uint64_t run_hist(const Hist& h, Ctx& c)
       {
          c.count("hist.sequences");
          c.count(std::string("hist.lastop.") + HNAME[op.kind]);
-         check_state(now, st, mo, j, opn, opdesc, h.init == INIT_SOLVED, isCopy ? "@copy" : "");
+         check_state(now, st, mo, j, opn, opdesc, h.init == INIT_SOLVED, isCopy ? "@copy" : "", !lastRejected);
          if(!(st == stBefore)) { c.count("hist.state_changing"); observesEarlier = observesEarlier || k > 0; }
          if(observesEarlier && k > 0) c.count("hist.nontrivial");
          c.state(std::to_string(h.init) + ":" + st.digest());
@@ -1293,6 +1307,9 @@ int main(int argc, char** argv)
       return run_replay(doc.substr(p, doc.find('"', p) - p));
    }
    bool thorough = args.tier == "thorough";
+   // a SoPlex object is a few hundred kB: keep its blocks on the heap instead of mmap/munmap per object
+   mallopt(M_MMAP_THRESHOLD, 32 * 1024 * 1024);
+   mallopt(M_TRIM_THRESHOLD, 512 * 1024 * 1024);
    Report rep(args, "model_checking", thorough ? 3000 : 420);
    RunOpts o = rep.opts();
    o.perturb = {85};
